@@ -75,7 +75,7 @@ func h2i(tag string, i int) *big.Int {
 }
 
 func sub(a *big.Int, k int64) *big.Int { return new(big.Int).Sub(a, big.NewInt(k)) }
-func modP(a *big.Int) *big.Int        { return new(big.Int).Mod(a, ref.P) }
+func modP(a *big.Int) *big.Int         { return new(big.Int).Mod(a, ref.P) }
 
 // fieldDomain is the per-coordinate alphabet for (u,t): boundary values first,
 // then constants of the map, then hash-derived generic elements.
@@ -128,7 +128,7 @@ func checkXSwiftEC(u, t *big.Int, order int, sink *failSink) ref.XSwiftECBranch 
 	got, err := implXSwiftEC(u, t)
 	if err != nil || got.Cmp(want) != 0 {
 		sink.add(failure{
-			key:   fmt.Sprintf("ellswift/XSwiftEC/u=%s/t=%s", hx(u), hx(t)),
+			key:   fmt.Sprintf("ellswift/XSwiftEC/branch=candidate%d,doubled=%v,u0=%v,t0=%v", br.Candidate, br.Doubled, br.UZero, br.TZero),
 			what:  fmt.Sprintf("ellswift.XSwiftEC(u=%s,t=%s) = %s (err=%v), BIP324 XSwiftEC = %s", hx(u), hx(t), hx(got), err, hx(want)),
 			order: order, replay: caseSpec{Kind: "xswiftec", U: hx(u), T: hx(t)},
 		})
@@ -142,8 +142,14 @@ func checkInv(u, x *big.Int, c, order int, sink *failSink) (nonNil bool) {
 	got, err := implXSwiftECInv(u, x, c)
 	same := err == nil && ((want == nil) == (got == nil)) && (want == nil || want.Cmp(got) == 0)
 	if !same {
+		class := "value-differs"
+		if got == nil {
+			class = "impl-None"
+		} else if want == nil {
+			class = "spec-None"
+		}
 		sink.add(failure{
-			key:   fmt.Sprintf("ellswift/XSwiftECInv/u=%s/x=%s/case=%d", hx(u), hx(x), c),
+			key:   fmt.Sprintf("ellswift/XSwiftECInv/case=%d/%s", c, class),
 			what:  fmt.Sprintf("ellswift.XSwiftECInv(u=%s,x=%s,case=%d) = %s (err=%v), BIP324 = %s", hx(u), hx(x), c, hx(got), err, hx(want)),
 			order: order, replay: caseSpec{Kind: "xswiftecinv", U: hx(u), X: hx(x), Case: c},
 		})
@@ -160,7 +166,7 @@ func checkInv(u, x *big.Int, c, order int, sink *failSink) (nonNil bool) {
 	back, err := implXSwiftEC(u, got)
 	if err != nil || back.Cmp(x) != 0 {
 		sink.add(failure{
-			key:   fmt.Sprintf("ellswift/roundtrip/u=%s/x=%s/case=%d", hx(u), hx(x), c),
+			key:   fmt.Sprintf("ellswift/roundtrip/case=%d", c),
 			what:  fmt.Sprintf("XSwiftEC(u, XSwiftECInv(u=%s,x=%s,case=%d)=%s) = %s (err=%v), want x", hx(u), hx(x), c, hx(got), hx(back), err),
 			order: order, replay: caseSpec{Kind: "xswiftecinv", U: hx(u), X: hx(x), Case: c},
 		})
@@ -213,7 +219,7 @@ func byteDomain() [][32]byte {
 }
 
 // doublingT returns the t values (if any) for which g(u') = -t^2, i.e. the
-// t'' = 2t' branch of XSwiftEC.
+// t” = 2t' branch of XSwiftEC.
 func doublingT(u *big.Int) []*big.Int {
 	u1 := u
 	if u1.Sign() == 0 {
@@ -311,7 +317,7 @@ func runEllswift(r *ev.Run, sink *failSink) {
 			}
 			if !foundImpl {
 				sink.add(failure{
-					key:   fmt.Sprintf("ellswift/inv-incomplete/u=%s/t=%s", hx(g.u), hx(g.t)),
+					key:   "ellswift/inv-incomplete",
 					what:  fmt.Sprintf("no case of ellswift.XSwiftECInv(u=%s, x=XSwiftEC(u,t)=%s) returns the preimage t=%s", hx(g.u), hx(x), hx(g.t)),
 					order: i, replay: caseSpec{Kind: "xswiftec", U: hx(g.u), T: hx(g.t)},
 				})
@@ -345,6 +351,25 @@ func runEllswift(r *ev.Run, sink *failSink) {
 			g2 = append(g2, ux{nx, x})
 		}
 	}
+	// r = 0 corner of the case&2 branch: x = u + s with 4(u^3+7) + 3u^2 s = 0
+	nR0 := 0
+	for _, u := range dom {
+		if u.Sign() == 0 {
+			continue
+		}
+		den := modP(new(big.Int).Mul(big.NewInt(3), new(big.Int).Mul(u, u)))
+		num := modP(new(big.Int).Mul(big.NewInt(-4), ref.G(u)))
+		sv := modP(new(big.Int).Mul(num, new(big.Int).ModInverse(den, ref.P)))
+		x := modP(new(big.Int).Add(u, sv))
+		if ref.IsSquare(ref.G(x)) {
+			g2 = append(g2, ux{u, x})
+			nR0++
+		}
+	}
+	if nR0 == 0 {
+		r.Broken("no (u,x) pair reaches the r = 0 corner of XSwiftECInv")
+	}
+	r.Add("xswiftecinv_r0_corner_pairs", int64(nR0))
 	ev.Par(len(g2), workers, func(i int) {
 		for c := 0; c < 8; c++ {
 			checkInv(g2[i].u, g2[i].x, c, i*8+c, sink)
@@ -388,7 +413,7 @@ func runEllswift(r *ev.Run, sink *failSink) {
 		r.Nontrivial(fmt.Sprintf("ecdhx/%x/%s", e, hx(pv)))
 		if err != nil || got != want {
 			sink.add(failure{
-				key:   fmt.Sprintf("ellswift/ECDHXOnly/enc=%x/priv=%s", e, hx(pv)),
+				key:   fmt.Sprintf("ellswift/ECDHXOnly/u>=p:%v/t>=p:%v", new(big.Int).SetBytes(e[:32]).Cmp(ref.P) >= 0, new(big.Int).SetBytes(e[32:]).Cmp(ref.P) >= 0),
 				what:  fmt.Sprintf("EllswiftECDHXOnly(enc=%x, priv=%s) = %x (err=%v), BIP324 = %x", e, hx(pv), got, err, want),
 				order: i, replay: caseSpec{Kind: "ecdhx", Enc: fmt.Sprintf("%x", e), Priv: hx(pv)},
 			})
